@@ -7,15 +7,38 @@ import ddlib
 from ddlib import coq_tree_opt, leaf, query, event, fld
 
 ID = "C31"
-THEOREMS = []
+THEOREMS = ["C31_refines", "C31_match_refines", "C31_compiles_iff_wf", "C31_impl_not", "C31_impl_and", "C31_impl_or",
+            "C31_impl_range", "C31_impl_range_upper", "C31_impl_range_lower", "C31_impl_range_open",
+            "C31_sem_not", "C31_sem_and", "C31_sem_or", "C31_sem_missing", "C31_sem_de_morgan_and",
+            "C31_sem_de_morgan_or", "C31_sem_range", "C31_sem_range_fields", "C31_sem_range_upper",
+            "C31_sem_range_lower", "C31_leaf_attr_exists", "C31_leaf_attr_equals", "C31_leaf_attr_prefix",
+            "C31_leaf_attr_wildcard", "C31_leaf_glob", "C31_leaf_attr_compare_int", "C31_leaf_attr_compare_float",
+            "C31_leaf_attr_compare_string", "C31_leaf_zcmp", "C31_leaf_tag_exists", "C31_leaf_tag_equals",
+            "C31_leaf_tag_compare", "C31_exists_tags_never", "C31_exists_tags_refuted", "C31_tagcmp_key_refuted",
+            "C31_refines_nonvacuous"]
 IMPORTS = ("From Coq Require Import List ZArith NArith String.\n"
            "From VRL Require Import Base.Bytes Base.Value Base.Lit Model.DdNode Model.DdMatch Corr.C31.\n"
            "Local Open Scope string_scope.")
 MANIFEST = {
     "level": "proof",
-    "technique": "",
-    "text": "",
-    "note": "",
+    "technique": "Coq proof (nested induction over the query tree) that the closure tree built by build_matcher + VrlFilter, "
+                 "when run, equals a direct evaluator `sem`; differential correspondence of the model vs "
+                 "match_datadog_query on generated (query, event) pairs; compositional identities checked on the "
+                 "implementation alone",
+    "text": "Closed Coq theorems, for all queries, events and Display functions: run(build_matcher n) e = sem n e outside two "
+            "recorded departures; NOT/AND/OR compose as negb/forallb/existsb on the implementation's own matchers; a range "
+            "over one field = both comparisons (inclusive/exclusive), half-open ranges = the remaining comparison, "
+            "[* TO *] = existence; De Morgan; each leaf (exists, term, prefix, wildcard via a declarative glob relation, "
+            "numeric/string comparisons, tags as key:value) characterised on the addressed values. The model is tied to "
+            "the code by running the VRL function on generated queries x events (trees taken from the real parser).",
+    "note": "Hypotheses/limits: f64 and timestamp Display are universally quantified functions (the correspondence run "
+            "instantiates f64 Display with an exact printer valid for the short dyadic floats it generates); the regex "
+            "crate is modelled for the two pattern shapes the code builds (literal text with * -> .*, anchored or between "
+            "\\b), bytes >= 0x80 counted as word bytes; attribute paths modelled for dotted plain field names (index/quoted "
+            "segments are reported as unmodelled and skipped); Bytes values assumed valid UTF-8. Two genuine defects are "
+            "recorded as known findings (C31-exists-tags, C31-tagcmp-key) with `_refuted` witnesses. `?` in a wildcard is "
+            "matched literally by the code (regex::escape), not as a one-character wildcard; the model follows the code. "
+            "No axioms (Print Assumptions: closed).",
     "design_ref": "DESIGN.md section 5 C31",
 }
 
@@ -107,7 +130,53 @@ def nontrivial(c):
     return c["kind"] != "single"
 
 
+DEFAULTS = ["message", "custom.error.message", "custom.error.stack", "custom.title", "_default_"]
+RESERVED = ["host", "source", "status", "service", "trace_id", "message", "timestamp", "tags"]
+
+
+def is_tag_attr(a):
+    v = a.replace("@", ".")
+    return not a.startswith("@") and v not in DEFAULTS and v not in RESERVED
+
+
+def event_tags(ev):
+    for k, v in ev.get("o", []):
+        if bytes.fromhex(k) == b"tags":
+            return v
+    return "absent"
+
+
 def known_matcher(entry, case, out):
+    """Only the law `leaf holds => _exists_ holds` can meet the two findings; recognise each precisely."""
+    if case.get("kind") != "implies_exists" or not isinstance(out, dict) or "r" not in out or len(out["r"]) != 2:
+        return False
+    leaf_t, ex_t = out["r"][0]["t"], out["r"][1]["t"]
+    if not isinstance(leaf_t, dict) or not isinstance(ex_t, dict) or ex_t.get("k") != "exists":
+        return False
+    if out["r"][0]["m"] is not True or out["r"][1]["m"] is not False:
+        return False
+    tags = event_tags(case["ev"])
+    cls = entry["match"]["class"]
+    if cls == "exists-tags":
+        # the reserved attribute `tags` is present, yet `_exists_:tags` is false
+        return ex_t["attr"] == "tags" and tags != "absent"
+    if cls == "tagcmp-key":
+        # comparison / range on a tag, and the event carries a "key:value" tag with another key
+        if leaf_t.get("k") not in ("cmp", "range") or not is_tag_attr(leaf_t["attr"]) or ex_t["attr"] != leaf_t["attr"]:
+            return False
+        if leaf_t["k"] == "range" and "u" in leaf_t["lo"] and "u" in leaf_t["hi"]:
+            return False
+        if not isinstance(tags, dict) or "a" not in tags:
+            return False
+        key = leaf_t["attr"].replace("@", ".").encode()
+        for x in tags["a"]:
+            if isinstance(x, dict) and "b" in x:
+                s = bytes.fromhex(x["b"])
+                if b":" in s and s.split(b":", 1)[0] != key:
+                    return True
+            elif x is not None and not isinstance(x, bool) and isinstance(x, dict):
+                continue
+        return False
     return False
 
 
